@@ -14,7 +14,7 @@ func init() {
 		run:   runC16,
 		decided: "each documented method / builtin is dispatched to the library operation that has the documented contract, on the receiver's payload and the checked argument in the documented order, guarded by a receiver-kind test, returning the documented neutral value otherwise (method table extracted from the prototype literals, compared as normalised dataflow); pluck builds a fresh object, stores one fresh cell per requested key and does not write through its receiver; method names of each prototype are exactly the documented ones." +
 			" The argument helper tests the index against the argument count before indexing." +
-			" Indexing a string yields string(byte); method lookup binds a fresh cell per receiver; numbers are never updated in place.",
+			" Indexing a string yields string(byte); method lookup binds a fresh cell per receiver; numbers are never updated in place. pluck stores a member for every requested key (no key is passed over).",
 		notDecided: "the algebraic laws themselves (split/join, rounding of every double): library semantics, trusted.",
 	})
 }
@@ -168,6 +168,23 @@ func runC16(c *Ctx) {
 		}
 		if staticCalleeIs(cv, "(*lang.Value).SetMember") {
 			sets = append(sets, cv)
+		}
+	}
+	// exactly the requested keys: every argument reaches a store — in the loop over the arguments no
+	// way leads from one argument to the next without a SetMember call (or an error return)
+	{
+		via := map[*ssa.BasicBlock]bool{}
+		for _, sc := range sets {
+			via[sc.Block()] = true
+		}
+		nLoops := 0
+		for _, l := range rangeLoops(pl.Fn, func(v ssa.Value) bool { return v == ssa.Value(pl.Fn.Params[1]) }) {
+			nLoops++
+			skip := !via[l.Body] && reachableFrom([]*ssa.BasicBlock{l.Body}, via)[l.Header]
+			c.check(!skip, "R3", "pluck-every-key", p.Pos(pl.Fn.Pos()), "no argument is passed over: every iteration stores the key", "an iteration of pluck's loop over the requested keys can go on to the next key without storing this one: the result lacks requested keys (those for which the skipping condition holds)")
+		}
+		if nLoops == 0 {
+			c.undecided("R3", "pluck-every-key", p.Pos(pl.Fn.Pos()), "no loop over the arguments found in pluck")
 		}
 	}
 	this := pl.Fn.Params[2]
